@@ -1,6 +1,8 @@
 package sx
 
 import (
+	"crypto/sha1"
+	"encoding/hex"
 	"fmt"
 	"go/types"
 	"math/bits"
@@ -155,6 +157,29 @@ func (m *Machine) textOf(a value, depth int) value {
 			return "<nil>"
 		}
 		return "&" + toString(*a)
+	case *omap:
+		// Go prints maps with sorted keys
+		type kv struct {
+			k string
+			v value
+		}
+		var kvs []kv
+		if a != nil {
+			for _, e := range a.entries {
+				if e.live {
+					kvs = append(kvs, kv{m.concreteString(m.textOf(e.key, depth+1), "map key in fmt"), e.val})
+				}
+			}
+		}
+		sort.Slice(kvs, func(i, j int) bool { return kvs[i].k < kvs[j].k })
+		var res value = "map["
+		for i, e := range kvs {
+			if i > 0 {
+				res = strConcat(res, " ")
+			}
+			res = strConcat(strConcat(strConcat(res, e.k), ":"), m.textOf(e.v, depth+1))
+		}
+		return strConcat(res, "]")
 	}
 	return toString(a)
 }
@@ -677,6 +702,31 @@ func registerIntrinsics(e *Engine) {
 		m.notePanic("log.Panicf: " + toString(msg))
 		panic(targetPanic{iface{types.Typ[types.String], msg}})
 	}
+	// --- crypto/sha1 + hex (pod label-set variant key): an unwritten digest only
+	in["crypto/sha1.New"] = func(fr *frame, args []value) value {
+		t := fr.m.pkgType("crypto/sha1", "digest")
+		p := new(value)
+		*p = zero(t)
+		return iface{t: types.NewPointer(t), v: p}
+	}
+	in["(*crypto/sha1.digest).Sum"] = func(fr *frame, args []value) value {
+		bs, ok := concreteBytes(args[1])
+		if !ok {
+			panic(unsupported("sha1 of symbolic bytes"))
+		}
+		h := sha1.New()
+		return byteSlice(h.Sum(bs))
+	}
+	in["(*crypto/sha1.digest).Write"] = func(fr *frame, args []value) value {
+		panic(unsupported("sha1 digest Write"))
+	}
+	in["encoding/hex.EncodeToString"] = func(fr *frame, args []value) value {
+		bs, ok := concreteBytes(args[0])
+		if !ok {
+			panic(unsupported("hex of symbolic bytes"))
+		}
+		return hex.EncodeToString(bs)
+	}
 	in["time.Now"] = func(fr *frame, args []value) value { return zero(fr.m.pkgType("time", "Time")) }
 	in["time.Since"] = func(fr *frame, args []value) value { return int64(0) }
 	registerVF(e)
@@ -772,6 +822,17 @@ func (m *Machine) deepEqual(t types.Type, x, y value, depth int) value {
 
 // --- net stubs ------------------------------------------------------------------------------
 
+// cidrRopeLit: shape ip4(a) "/N" with a concrete prefix length
+func cidrRopeLit(s *symStr) (a *smt.Term, n int, ok bool) {
+	if len(s.segs) == 2 && s.segs[0].k == segIP4 && s.segs[1].k == segLit && strings.HasPrefix(s.segs[1].lit, "/") {
+		v, err := strconv.Atoi(s.segs[1].lit[1:])
+		if err == nil {
+			return s.segs[0].t, v, true
+		}
+	}
+	return nil, 0, false
+}
+
 func cidrRope(s *symStr) (a, n *smt.Term, ok bool) {
 	// shape: ip4(a) "/" dec(n)
 	if len(s.segs) == 3 && s.segs[0].k == segIP4 && s.segs[1].k == segLit && s.segs[1].lit == "/" && s.segs[2].k == segDec {
@@ -797,11 +858,35 @@ func intrinsicParseCIDR(fr *frame, args []value) value {
 		}
 		return tuple{byteSlice(ip), mkNet(byteSlice(ipn.IP), byteSlice(ipn.Mask)), nilError()}
 	case *symStr:
+		p := m.pool
+		bytesOf := func(t *smt.Term) []value {
+			return []value{
+				m.mk(p.Extract(t, 31, 24), types.Uint8), m.mk(p.Extract(t, 23, 16), types.Uint8),
+				m.mk(p.Extract(t, 15, 8), types.Uint8), m.mk(p.Extract(t, 7, 0), types.Uint8),
+			}
+		}
+		if a, n, ok := cidrRopeLit(s); ok {
+			if n < 0 || n > 32 {
+				return tuple{[]value(nil), (*value)(nil), m.mkError("invalid CIDR address")}
+			}
+			var mk uint64
+			if n > 0 {
+				mk = (uint64(0xffffffff) << uint(32-n)) & 0xffffffff
+			}
+			mask := p.BV(mk, 32)
+			masked := p.Bin(smt.OpBvAnd, a, mask)
+			ip16 := make([]value, 16)
+			for i := 0; i < 10; i++ {
+				ip16[i] = uint8(0)
+			}
+			ip16[10], ip16[11] = uint8(0xff), uint8(0xff)
+			copy(ip16[12:], bytesOf(a))
+			return tuple{ip16, mkNet(bytesOf(masked), bytesOf(mask)), nilError()}
+		}
 		a, n, ok := cidrRope(s)
 		if !ok {
 			panic(unsupported("net.ParseCIDR of " + s.String()))
 		}
-		p := m.pool
 		// contract: IPv4, 0 <= n <= 32 (the producer vf_CidrStr assumes it)
 		n32 := p.Zext(p.Extract(n, 7, 0), 32)
 		okRange := p.Bin(smt.OpBvUle, p.Zext(p.Extract(n, n.W-1, 0), 64), p.BV(32, 64))
@@ -815,12 +900,6 @@ func intrinsicParseCIDR(fr *frame, args []value) value {
 		sh := p.Bin(smt.OpBvSub, p.BV(32, 32), n32)
 		mask := p.Bin(smt.OpBvShl, p.BV(0xffffffff, 32), sh)
 		masked := p.Bin(smt.OpBvAnd, a, mask)
-		bytesOf := func(t *smt.Term) []value {
-			return []value{
-				m.mk(p.Extract(t, 31, 24), types.Uint8), m.mk(p.Extract(t, 23, 16), types.Uint8),
-				m.mk(p.Extract(t, 15, 8), types.Uint8), m.mk(p.Extract(t, 7, 0), types.Uint8),
-			}
-		}
 		ip16 := make([]value, 16)
 		for i := 0; i < 10; i++ {
 			ip16[i] = uint8(0)
@@ -854,6 +933,9 @@ func intrinsicParseIP(fr *frame, args []value) value {
 		}
 		if _, _, ok := cidrRope(s); ok {
 			return []value(nil) // a CIDR is not an IP address
+		}
+		if _, _, ok := cidrRopeLit(s); ok {
+			return []value(nil)
 		}
 		panic(unsupported("net.ParseIP of " + s.String()))
 	}
